@@ -13,9 +13,13 @@ CONSTANTS
     MaxTasks = 1
     MaxDepth = 3
     Panics = TRUE
+    Discards = FALSE
     MaxSpans = 3
     IncomingKinds <- MC_None
     WithLazy = TRUE
+    HasRng = TRUE
+    ExplicitKinds <- MC_ExNone
+    PushLastWins = TRUE
     WithCancel = TRUE
     CancelOwnIds = FALSE
     CtxForms <- MC_Forms
